@@ -203,7 +203,7 @@ def rejects (lt : Ty) (op : Op) (rt : Ty) : Bool :=
   | some (.ty t) => !instTy rt t
   | some (.tys l) => !(l.any (instTy rt))
   | some .unary => false
-  | some .untyped => lt == .range && (op == .equals || op == .notEquals) && rt != .range
+  | some .untyped => (lt == .range || lt == .subproj) && (op == .equals || op == .notEquals) && rt != lt
 
 theorem rejects_sound (l r : Val) (op : Op) (h : rejects l.ty op r.ty = true) :
     ∃ e, operatorCall l op (some r) = .error e ∧ e ≠ .unsupported := by
@@ -229,11 +229,12 @@ theorem rejects_sound (l r : Val) (op : Op) (h : rejects l.ty op r.ty = true) :
     rw [he]
     simp only [Bool.and_eq_true, beq_iff_eq, Bool.or_eq_true, bne_iff_ne, ne_eq] at h
     obtain ⟨⟨hl, hop⟩, hr⟩ := h
-    cases l <;> simp [Val.ty] at hl
-    cases r <;> simp [Val.ty] at hr <;>
-      rcases hop with rfl | rfl <;> exact ⟨.invalidArguments, rfl, by decide⟩
+    cases l <;> simp [Val.ty] at hl <;>
+      (cases r <;> simp [Val.ty] at hr <;>
+        rcases hop with rfl | rfl <;> exact ⟨.invalidArguments, rfl, by decide⟩)
 
-def allTy (p : Ty → Bool) : Bool := p .int && p .bool && p .str && p .arr && p .dict && p .range
+def allTy (p : Ty → Bool) : Bool :=
+  p .int && p .bool && p .str && p .arr && p .dict && p .range && p .subproj
 
 def allOp (p : Op → Bool) : Bool :=
   p .plus && p .minus && p .times && p .div && p .mod && p .uminus && p .not_ && p .bool && p .equals &&
